@@ -235,6 +235,9 @@ def run(facts, res):
     # whether or not repairs were found (the rule is R7.1's, judged here for C04's last sentence)
     import c07
     c07.r71(facts, res, 'R4.6')
+    # the closure's work list (R4.4) trusts what Itemset::add reports (= R1.6)
+    import c01
+    c01.r16(facts, res, 'R4.7')
     # R4.5 = C17's R17.4 applied to the closure's lookahead computation: FIRST(Y) of a symbol behind the dot is merged into the
     # context together with a test of nullable(Y) of the same Y
     import c17
